@@ -9,8 +9,8 @@ Import ListNotations.
 Lemma y_items_attached_eq :
   forall (T : Type) (lower upper : str -> str)
          (parse_tree : mapper -> tz -> res (option T * mapper * tz))
-         (set_label : T -> option str -> T) (add_comments : T -> list str -> T)
+         (set_label : T -> option str -> T) (add_comments : T -> list str -> T) (vl : bool)
          (f1 f2 : tns_factory) (et : bool) fuel k g,
-  y_items_from_stream T lower upper parse_tree set_label add_comments (mkNsCfg true f1) et fuel k g
-  = y_items_from_stream T lower upper parse_tree set_label add_comments (mkNsCfg true f2) et fuel k g.
+  y_items_from_stream T lower upper parse_tree set_label add_comments vl (mkNsCfg true f1) et fuel k g
+  = y_items_from_stream T lower upper parse_tree set_label add_comments vl (mkNsCfg true f2) et fuel k g.
 Proof. reflexivity. Qed.
